@@ -222,3 +222,34 @@ func GenLargeSpec(t *simrt.Tape, nRules int) *Spec {
 	}
 	return SpecFromText([]byte(b.String()))
 }
+
+// GenDeepSpec draws a valid specification whose right-hand sides nest groups depth levels deep
+// (mixed bracket kinds, alternatives on the way down and on the way up): the parser's stacks grow
+// with the nesting, not with the length of the input.
+func GenDeepSpec(t *simrt.Tape, depth int) *Spec {
+	open := []string{"(", "[", "{", "{{"}
+	close := map[string]string{"(": ")", "[": "]", "{": "}", "{{": "}}"}
+	var b strings.Builder
+	b.WriteString("grammar deep;\nID = /[a-z]+/;\nstart =")
+	var stack []string
+	for i := 0; i < depth; i++ {
+		if t.Chance(1, 3) {
+			b.WriteString([]string{" ID", " \"x\"", " start", " \"y\" |"}[t.Draw(4)])
+		}
+		o := open[t.Draw(len(open))]
+		if len(stack) > 0 && (o == "{" || o == "{{") && strings.HasPrefix(stack[len(stack)-1], "{") {
+			o = "(" // "{ {" and "{{ {" need care with separators; keep the text unambiguous
+		}
+		stack = append(stack, o)
+		b.WriteString(" " + o)
+	}
+	b.WriteString(" ID")
+	for i := len(stack) - 1; i >= 0; i-- {
+		if t.Chance(1, 4) {
+			b.WriteString([]string{" | ID", " \"z\"", " |"}[t.Draw(3)])
+		}
+		b.WriteString(" " + close[stack[i]])
+	}
+	b.WriteString(";\n")
+	return SpecFromText([]byte(b.String()))
+}
